@@ -31,12 +31,12 @@ def gen(v, name, maxlen, w):
 def run(prop, replay=None):
     quick = vlib.tier() != "thorough"
     v = Verdict(prop, "model_checking")
-    v.rule = ("case = (query set of 7: A B+, A B+ C, C B+, C B+ A alone and three pairs; every event-type sequence over {A,B,C} up to length 5 (thorough 8)); "
+    v.rule = ("case = (query set of 7: A B+, A B+ C, C B+, C B+ A alone and three pairs; every event-type sequence over {A,B,C} up to length 6 (thorough 8)); "
               "each also replayed as a second window on a reused aggregator; non-trivial = the reference count is positive; distinct by hash")
     v.assumptions = ["HamletAggregator API level (incremental mode); the engine's .trend_aggregate wiring defect is described in DESIGN.md section 7"]
     v.exhaustive = True
     w = workdir("trend")
-    L = 5 if quick else 8
+    L = 6 if quick else 8
     paths = {}
     for name in SETS:
         paths[name], _ = gen(v, name, L, w)
